@@ -46,6 +46,10 @@ func cmdStress(args []string) {
 		{Len: 12, Allow: int(spg.All), Require: int(spg.Digits | spg.Symbols), Exclude: int(spg.Ambiguous)},
 		{Len: 5, AllowChars: o("abcé"), RequireSets: [][]int{o("xy"), o("yz")}, ExcludeChars: o("c")},
 		{Len: 20, Allow: int(spg.Letters | spg.Digits), Require: int(spg.Uppers | spg.Lowers | spg.Digits)},
+		// seven required sets (128 inclusion-exclusion terms per count, computed by every caller at once)
+		{Len: 10, Allow: int(spg.Lowers), RequireSets: [][]int{o("ab"), o("cd"), o("ef"), o("gh"), o("ij"), o("kl"), o("mn")}},
+		// most attempts fail (one candidate in four meets the requirement; all 200 failing has probability 1e-25): the callers spend their time inside the retry loop
+		{Len: 1, AllowChars: o("abc"), RequireSets: [][]int{o("z")}},
 	}
 	// references first, single-threaded (they touch the MaxTrials/MaxFailRate globals and the draw hook)
 	sharedR := make([]spg.CharRecipe, len(chars))
